@@ -358,6 +358,28 @@ Theorem C13_collect_reads_irrelevant : forall md bk keys h,
 Proof. intros. apply collect_final_data. intros i. apply total_drop_reads. Qed.
 Print Assumptions C13_collect_arrival_order.
 
+(* ---- rare reduce with several group columns ---- *)
+(* what HEAD's AccumulatingGroup.Groups orders by: without a --sort expression the column values
+   joined by the array separator, compared as ONE text by the (possibly reversed) NameSorter - not
+   column by column; with --sort {sum} the decimal total; with --sort "{1} {0}" second column, space,
+   first column.  Being an instance of the sort of distinct texts, the order is the same from every
+   arrival order and read history, and the reversed sorter gives the reversed sequence
+   (C13_mode_deterministic, C13_reverse, C13_check_sound through [norm]). *)
+Theorem C13_groups_ordering_text : forall parts k h i,
+  group_item 0 h (i, (parts, k)) = (rekey k (join0 parts), 0%Z) /\
+  group_item 1 h (i, (parts, k)) = (numkey (total h i), 0%Z) /\
+  group_item 2 h (i, (parts, k)) = (rekey k (nth 1 parts [] ++ 32%N :: nth 0 parts [])%list, 0%Z).
+Proof. intros. repeat split. Qed.
+Example C13_groups_example :
+  let kk := mkkey [] None FmtErr [] in
+  let gs := map (fun p : string * string => ([of_str (fst p); of_str (snd p)], kk))
+                [("web", "200"); ("web", "404"); ("web", "500"); ("db", "200"); ("db", "500")]%string in
+  let hs := [[ESample 0 1; ERead; ESample 1 2; ESample 2 3; ESample 3 4; ESample 4 5];
+             [ESample 4 5; ESample 3 4; ESample 2 3; ERead; ESample 1 2; ESample 0 1]] in
+  model (IGroups (of_str "contextual") 0 gs hs) = OSort [[3; 4; 0; 1; 2]; [3; 4; 0; 1; 2]]%nat /\
+  model (IGroups (of_str "contextual:desc") 0 gs hs) = OSort [[2; 1; 0; 4; 3]; [2; 1; 0; 4; 3]]%nat.
+Proof. vm_compute. split; reflexivity. Qed.
+
 (* ---- tables with Trim (spark, heatmap, table) ---- *)
 (* The sorted rows / columns of a TableAggregator, and which of them are left, are a function of
    the FINAL cells alone: two histories of samples, reads and trims (keep the last n columns in the
